@@ -169,12 +169,37 @@ Definition IEEE (chk:bool) (o1 : fk -> fop1 -> Z -> Z) (o2 : fk -> fop2 -> Z -> 
   i_1 := zi_1 chk; i_2 := zi_2 chk; i_checked := zi_checked; i_cmp := zi_cmp; i_cast := fun _ b z => wrap b z; i_shl := zi_shl chk; i_shr := zi_shr chk;
   i_mixed := zi_mixed; i_mixed_checked := zi_mixed_checked; i_isneg := fun _ z => Z.ltb z 0; i_try := fun _ b z => if inr b z then Some z else None |}.
 
+(* an arbitrary float instance combined with the concrete Rust integer semantics: used where index / length logic must compute *)
+Definition withZ (O:Ops) (chk:bool) : Ops := {|
+  F32 := F32 O; F64 := F64 O;
+  f32_1 := f32_1 O; f32_2 := f32_2 O; f32_3 := f32_3 O; f32_cmp := f32_cmp O; f32_pred := f32_pred O; f32_of_bits := f32_of_bits O; f32_to_bits := f32_to_bits O;
+  f64_1 := f64_1 O; f64_2 := f64_2 O; f64_3 := f64_3 O; f64_cmp := f64_cmp O; f64_pred := f64_pred O; f64_of_bits := f64_of_bits O; f64_to_bits := f64_to_bits O;
+  f32_cvtt_i32 := f32_cvtt_i32 O; f32_of_i32 := f32_of_i32 O;
+  f32_to_int := f32_to_int O; f64_to_int := f64_to_int O; f32_of_int := f32_of_int O; f64_of_int := f64_of_int O; f32_to_f64 := f32_to_f64 O; f64_to_f32 := f64_to_f32 O;
+  i_1 := zi_1 chk; i_2 := zi_2 chk; i_checked := zi_checked; i_cmp := zi_cmp; i_cast := fun _ b z => wrap b z; i_shl := zi_shl chk; i_shr := zi_shr chk;
+  i_mixed := zi_mixed; i_mixed_checked := zi_mixed_checked; i_isneg := fun _ z => Z.ltb z 0; i_try := fun _ b z => if inr b z then Some z else None |}.
+
+(* [IntStd O chk]: the integer primitives of [O] are the Rust ones (overflow checks on iff [chk]); floats stay arbitrary *)
+Definition IntStd (O:Ops) (chk:bool) : Prop :=
+  i_1 O = zi_1 chk /\ i_2 O = zi_2 chk /\ i_checked O = zi_checked /\ i_cmp O = zi_cmp /\ i_cast O = (fun _ b z => wrap b z) /\
+  i_shl O = zi_shl chk /\ i_shr O = zi_shr chk /\ i_mixed O = zi_mixed /\ i_mixed_checked O = zi_mixed_checked /\
+  i_isneg O = (fun _ z => Z.ltb z 0) /\ i_try O = (fun _ b z => if inr b z then Some z else None).
+Lemma IntStd_withZ O chk : IntStd (withZ O chk) chk.
+Proof. repeat split. Qed.
+Lemma IntStd_IEEE chk o1 o2 : IntStd (IEEE chk o1 o2) chk.
+Proof. repeat split. Qed.
+(* split the hypothesis into its eleven equations (the abstract primitives stay variables until [unlock_ints]) *)
+Ltac intstd_eqs H :=
+  cbv [IntStd i_1 i_2 i_checked i_cmp i_cast i_shl i_shr i_mixed i_mixed_checked i_isneg i_try] in H;
+  destruct H as (? & ? & ? & ? & ? & ? & ? & ? & ? & ? & ?).
+Ltac unlock_ints := repeat match goal with E : ?v = _ |- context[?v] => is_var v; rewrite E end.
+
 (* flatten a result to words for comparison with the driver *)
 Definition no_o1 (_:fk) (_:fop1) (z:Z) : Z := 0. Definition no_o2 (_:fk) (_:fop2) (a b:Z) : Z := 0.
 Definition IEEEr := IEEE false no_o1 no_o2.
-Fixpoint flat (v : val IEEEr) : list Z := match v with VF32 x => [bits_of_b32 x] | VF64 x => [bits_of_b64 x] | VI _ z => [z] | VB b => [if b then 1 else 0] | VT l => flat_map flat l | VOpt None => [0] | VOpt (Some x) => 1 :: flat x | VUnit => [] | VStr _ => [] end.
-Definition out (r : res (val IEEEr)) : list Z := match r with Ok v => 0 :: flat v | Panic => [1] | UB _ => [3] | OutOfFuel => [4] | Stuck _ => [2] end.
-Definition vf32 (w:Z) : val IEEEr := @VF32 IEEEr (ofb32 w).
-Definition vf64 (w:Z) : val IEEEr := @VF64 IEEEr (ofb64 w).
-Definition vi (k:ik) (z:Z) : val IEEEr := @VI IEEEr k z.
-Definition vb (b:bool) : val IEEEr := @VB IEEEr b.
+Fixpoint flat (v : valO IEEEr) : list Z := match v with VF32 x => [bits_of_b32 x] | VF64 x => [bits_of_b64 x] | VI _ z => [z] | VB b => [if b then 1 else 0] | VT l => flat_map flat l | VOpt None => [0] | VOpt (Some x) => 1 :: flat x | VUnit => [] | VStr _ => [] end.
+Definition out (r : res (valO IEEEr)) : list Z := match r with Ok v => 0 :: flat v | Panic => [1] | UB _ => [3] | OutOfFuel => [4] | Stuck _ => [2] end.
+Definition vf32 (w:Z) : valO IEEEr := @VF32 _ _ (ofb32 w).
+Definition vf64 (w:Z) : valO IEEEr := @VF64 _ _ (ofb64 w).
+Definition vi (k:ik) (z:Z) : valO IEEEr := @VI _ _ k z.
+Definition vb (b:bool) : valO IEEEr := @VB _ _ b.
